@@ -21,4 +21,9 @@ def extra_jobs(tier):
                second="market_sell", vol_limit="25", impact="0"),
           dict(plan="pair", depth=2, bp=8, qp=2, liq="vsi", vols=["10", "100000"], namounts=3, fee="none",
                second="market_sell", sides=["buy"])]
+    # partial fills against liquidity that is not a multiple of the base precision (truncated base, scaled quote)
+    ps += [dict(plan="single", depth=2, bp=0, qp=2, liq="vsi", vols=["10", "127.83333333"], namounts=3,
+                kinds=["limit", "stop_limit"]),
+           dict(plan="single", depth=2, bp=2, qp=2, liq="vsi", vols=["10.55", "127.83333333"], namounts=3,
+                kinds=["limit"])]
     return hist.jobs_for(PROPS, ps)
